@@ -41,6 +41,7 @@ def parseCfg (s : String) : Except String CaseCfg := do
     | "a" => pure (some ["X-A"])
     | "m" => pure (some ["X-M", "Set-Cookie"])
     | "am" => pure (some ["x-a", "X-M", "X-C", "Set-Cookie"])
+    | "e" => pure none      -- empty non-nil list: configDefault replaces it by nil
     | _ => throw "outside-domain: keep")
   let sp ← get "split"
   unless sp == "0" || sp == "1" do throw "outside-domain: split"
@@ -55,9 +56,9 @@ def parseThreads (s : String) : Except String (Array ThrIn) := do
     match p.splitOn ":" with
     | [m, k, st, b, h, e] =>
       let [mc] := m.toList | throw "outside-domain: method"
-      unless mc == 'G' || mc == 'P' || mc == 'D' do throw "outside-domain: method"
+      unless "GHOTPDUA".contains mc do throw "outside-domain: method"
       let [kc] := k.toList | throw "outside-domain: key"
-      unless kc == '-' || kc == '!' || (kc ≥ 'a' && kc ≤ 'z') do throw "outside-domain: key"
+      unless kc == '-' || kc == '!' || kc == '?' || (kc ≥ 'a' && kc ≤ 'z') || (kc ≥ 'A' && kc ≤ 'Z') do throw "outside-domain: key"
       let some st := st.toNat? | throw "outside-domain: status"
       unless st ≥ 200 ∧ st ≤ 599 do throw "outside-domain: status range"
       unless b == "0" || b == "1" do throw "outside-domain: body"
@@ -69,14 +70,8 @@ def parseThreads (s : String) : Except String (Array ThrIn) := do
   if out.size > 64 then throw "outside-domain: too many threads"
   pure out
 
-/-- Config.Next (safe method) comes first, then the empty key, then KeyHeaderValidate -/
-def reqOf (i : ThrIn) : Req :=
-  if i.method == 'G' || i.key == '-' then { key := none, invalid := false, fails := i.err }
-  else if i.key == '!' then { key := none, invalid := true, fails := i.err }
-  else { key := some i.key.toNat, invalid := false, fails := i.err }
-
 /-- the response the harness' handler produces for thread t (header presets of harness/cmd/c17) -/
-def ownResp (i : ThrIn) (t : Nat) : Spec.Resp :=
+def ownResp (i : ThrIn) (t : Nat) : Resp :=
   let v := toString t
   let hdrs : List (String × String) := match i.hdrs with
     | 1 => [("X-A", "v" ++ v)]
@@ -88,7 +83,14 @@ def ownResp (i : ThrIn) (t : Nat) : Spec.Resp :=
 
 def watched : List String := ["X-A", "X-M", "X-C", "Set-Cookie"]
 
-inductive HAct | start (t : Nat) | release (t : Nat) | fault (t : Nat) | tick (d : Nat)
+/-- Config.Next (safe method) comes first, then the empty key, then KeyHeaderValidate (`!` too short,
+`?` too long) -/
+def reqOf (i : ThrIn) (t : Nat) : Req :=
+  if "GHOT".contains i.method || i.key == '-' then { key := none, invalid := false, fails := i.err, resp := ownResp i t }
+  else if i.key == '!' || i.key == '?' then { key := none, invalid := true, fails := i.err, resp := ownResp i t }
+  else { key := some i.key.toNat, invalid := false, fails := i.err, resp := ownResp i t }
+
+inductive HAct | start (t : Nat) | release (t : Nat) | fault (t : Nat) | corrupt (t : Nat) | tick (d : Nat)
 
 def parseAct (n : Nat) (s : String) : Except String HAct := do
   let num (r : List Char) : Except String Nat :=
@@ -97,6 +99,7 @@ def parseAct (n : Nat) (s : String) : Except String HAct := do
   | 's' :: r => let t ← num r; if t < n then pure (.start t) else throw "outside-domain: tid"
   | 'r' :: r => let t ← num r; if t < n then pure (.release t) else throw "outside-domain: tid"
   | 'f' :: r => let t ← num r; if t < n then pure (.fault t) else throw "outside-domain: tid"
+  | 'c' :: r => let t ← num r; if t < n then pure (.corrupt t) else throw "outside-domain: tid"
   | 't' :: r => let d ← num r; if d ≤ 100000 then pure (.tick d) else throw "outside-domain: tick"
   | _ => throw s!"outside-domain: action {s}"
 
@@ -126,7 +129,7 @@ def settle (life : Nat) (st : String) (n : Nat) : Nat → Ex → Ex
     | none =>
       match (List.range n).find? fun t =>
           let pc := (x.g.threads t).pc
-          pc != .idle && pc != .done && pc != .lockAcq && !isYield st pc with
+          pc != .idle && pc != .done && pc != .leaked && pc != .lockAcq && !isYield st pc with
       | some t =>
         match stepThr life x.g t with
         | some g' => settle life st n fuel { x with g := g' }
@@ -141,7 +144,7 @@ def posChar (pc : Pc) : Char :=
   | .atSet => 'S'
   | .atUnlock => 'U'
   | .atHandler | .atHandlerB => 'H'
-  | .done => 'D'
+  | .done | .leaked => 'D'
   | _ => 'B'
 
 def positions (n : Nat) (g : G) : String := String.ofList ((List.range n).map fun t => posChar (g.threads t).pc)
@@ -164,6 +167,14 @@ def doAct (life : Nat) (st : String) (n : Nat) (x : Ex) : HAct → Except String
     else match stepFault x.g t with
       | some g' => pure (settle life st n 300 { x with g := g' })
       | none => throw "fault where no call is pending in the model"
+  | .corrupt t =>
+    -- Storage.Get returns bytes that do not unmarshal: a failed lookup
+    if st == "M" then throw "outside-domain: corrupt record on the built-in storage"
+    else if (x.g.threads t).pc != .atGet1 && (x.g.threads t).pc != .atGet2 then
+      throw "corrupt record where no Storage.Get is pending in the model"
+    else match stepFault x.g t with
+      | some g' => pure (settle life st n 300 { x with g := g' })
+      | none => throw "corrupt record where no Storage.Get is pending in the model"
   | .tick d => pure { x with g := { x.g with now := x.g.now + d } }
 
 /-! ### rendering -/
@@ -173,14 +184,16 @@ def hexStr (s : String) : String := B.toHexField (s.toUTF8.toList.map (·.toNat)
 def renderHdrs (l : List (String × String)) : String :=
   if l.isEmpty then "-" else ";".intercalate (l.map fun (n, v) => n ++ "=" ++ hexStr v)
 
-def renderResp (ran : Bool) (cls : String) (r : Spec.Resp) : String :=
+def renderResp (ran : Bool) (cls : String) (r : Resp) : String :=
   s!"{r.status}:{if ran then 1 else 0}:{cls}:{hexStr r.body}:{renderHdrs r.hdrs}"
 
 /-- what the model says thread t's result line is -/
-def resultOf (cc : CaseCfg) (ins : Array ThrIn) (t : Nat) (th : Thread) : String :=
+def resultOf (ins : Array ThrIn) (t : Nat) (th : Thread) : String :=
   let i := ins.getD t { method := 'G', key := '-', status := 200, body := false, hdrs := 0, err := false }
   let own := ownResp i t
-  if th.pc != .done then "stuck" else
+  -- the answer the model wrote, as the harness observes it (watched headers, stable-sorted by name)
+  let answer : Resp := Spec.record none watched (th.ans.getD ⟨0, "no-answer-in-model", []⟩)
+  if th.pc != .done && th.pc != .leaked then "stuck" else
   match th.out with
   | .pending => "stuck"
   | .errKey => renderResp th.ran "Ekey" ⟨500, "", []⟩
@@ -189,10 +202,8 @@ def resultOf (cc : CaseCfg) (ins : Array ThrIn) (t : Nat) (th : Thread) : String
   | .errGet2 => renderResp th.ran "Eget2" ⟨500, "", []⟩
   | .errSet => renderResp th.ran "Eset" ⟨500, "", (Spec.record none watched own).hdrs⟩
   | .errHandler => renderResp th.ran "Ehandler" ⟨i.status, "", []⟩
-  | .own => renderResp th.ran "ok" (Spec.record none watched own)
-  | .replay r =>
-    let ir := ins.getD r i
-    renderResp th.ran "ok" (Spec.record cc.keep watched (ownResp ir r))
+  | .own => renderResp th.ran "ok" answer
+  | .replay _ => renderResp th.ran "ok" answer
 
 /-! ### the implementation's observation -/
 
@@ -213,7 +224,7 @@ structure ImplRes where
   status : Nat := 0
   ran : Bool := false
   cls : String := ""
-  resp : Spec.Resp := ⟨0, "", []⟩
+  resp : Resp := ⟨0, "", []⟩
 
 def parseRes (s : String) : Except String ImplRes := do
   if s == "panic" || s == "stuck" then return { noAnswer := true }
@@ -234,18 +245,18 @@ def handleCase (f : List String) : Except String Verdict := do
     let acts ← (if actS == "-" then pure [] else (actS.splitOn ",").mapM (parseAct n))
     if acts.length > 5000 then throw "outside-domain: too many actions"
     let dflt : ThrIn := { method := 'G', key := '-', status := 200, body := false, hdrs := 0, err := false }
-    let reqF : Nat → Req := fun t => reqOf (ins.getD t dflt)
+    let reqF : Nat → Req := fun t => reqOf (ins.getD t dflt) t
     -- model (if the implementation left the modelled behaviour the model cannot follow the actions: that is a
     -- correspondence failure, not a malformed case — the oracle below is still evaluated)
     let runModel : Except String String := do
-      let mut x : Ex := { g := init reqF cc.t0 }
+      let mut x : Ex := { g := init reqF cc.t0 cc.keep }
       let mut poss : List String := []
       for a in acts do
         x ← doAct cc.life cc.st n x a
         poss := positions n x.g :: poss
       let modelPos := if poss.isEmpty then "-" else ",".intercalate poss.reverse
       let modelRes := if n == 0 then "-" else
-        ",".intercalate ((List.range n).map fun t => resultOf cc ins t (x.g.threads t))
+        ",".intercalate ((List.range n).map fun t => resultOf ins t (x.g.threads t))
       pure (modelPos ++ "|" ++ modelRes)
     let modelObs := match runModel with
       | .ok s => s
@@ -263,11 +274,13 @@ def handleCase (f : List String) : Except String Verdict := do
     let mut before : List Char := List.replicate n '-'
     let mut evs : List Spec.Ev := []
     let mut touched : List Nat := []
+    let mut passedLock : List Nat := []     -- seen waiting at / inside Lock.Lock: a later `G` is the lookup under the lock
+    let mut leakers : List Nat := []        -- their Lock.Unlock was made to fail
     for (a, p) in acts.zip iposs do
       let after := p.toList
       match a with
       | .tick d => now := now + d
-      | .start t =>
+      | .start _ =>
         -- built-in storage/lock: everything up to the handler happens inside this action
         pure ()
       | .release t =>
@@ -278,30 +291,45 @@ def handleCase (f : List String) : Except String Verdict := do
         if b == 'S' then evs := .set t now true :: evs
       | .fault t =>
         let b := before.getD t '-'
-        evs := .faulted t (b == 'S') :: evs
-        if b == 'S' then evs := .set t now false :: evs
+        if b == 'U' then
+          evs := .unlockFailed t :: evs
+          leakers := t :: leakers
+        else
+          evs := .faulted t (b == 'S') :: evs
+          if b == 'S' then evs := .set t now false :: evs
+      | .corrupt t => evs := .faulted t false :: evs
       for t in List.range n do
         let c := after.getD t '-'
         if c == 'G' || c == 'L' || c == 'S' || c == 'U' || c == 'B' then
           if !touched.contains t then touched := t :: touched
         if c == 'D' && before.getD t '-' != 'D' then evs := .answered t :: evs
+        if (c == 'L' || c == 'B') && !passedLock.contains t then passedLock := t :: passedLock
+      -- who waits inside Lock.Lock, and who is between Lock.Lock returning and Lock.Unlock
+      let inside := (List.range n).filter fun t' =>
+        let c := after.getD t' '-'
+        c == 'S' || c == 'U' || (c == 'G' && passedLock.contains t') || leakers.contains t' ||
+          (c == 'H' && (reqF t').key.isSome)
+      for t in List.range n do
+        if after.getD t '-' == 'B' then evs := .blocked t inside :: evs
       before := after
     let evsF := evs.reverse
     let obsF : Nat → Spec.ThreadObs := fun t =>
       let r := resL.getD t { noAnswer := true }
-      { req := reqF t, own := ownResp (ins.getD t dflt) t, ran := r.ran, isErr := r.cls != "ok", resp := r.resp,
+      { req := reqF t, own := ownResp (ins.getD t dflt) t, ran := r.ran, isErr := r.cls != "ok", handlerErr := r.cls == "Ehandler", resp := r.resp,
         touched := touched.contains t, noAnswer := r.noAnswer }
     let verdict := Spec.check cc.life cc.keep watched n obsF evsF
     let spec := verdict.map (·.1)
     let known := match verdict with | some (_, true) => some "K1" | _ => none
     -- tags
     let replays := (List.range n).any fun t => let r := resL.getD t {}; !r.ran && r.cls == "ok" && (reqF t).key.isSome
-    let faults := acts.any fun a => match a with | .fault _ => true | _ => false
+    let faults := acts.any fun a => match a with | .fault _ => true | .corrupt _ => true | _ => false
+    let ufault := !leakers.isEmpty
     let blocked := iposs.any (·.contains 'B')
     let reexec := (List.range n).any fun t => (List.range n).any fun t' =>
       t < t' && (reqF t).key.isSome && (reqF t).key == (reqF t').key && (resL.getD t {}).ran && (resL.getD t' {}).ran
     let tags := ["st" ++ cc.st] ++ (if replays then ["replay"] else []) ++ (if faults then ["fault"] else []) ++
       (if blocked then ["blocked"] else []) ++ (if reexec then ["reexec"] else []) ++
+      (if ufault then ["unlock-fault"] else []) ++
       (if replays || blocked then ["nt"] else [])
     pure { id := id, modelObs := modelObs, implObs := impl, spec := spec, known := known, tags := tags }
   | _ => throw s!"outside-domain: expected 5 fields, got {f.length}"
